@@ -81,3 +81,4 @@ LEVEL = {
 }
 
 CFG['rule'] = CFG['rule'] + ' ' + "Additions: half of the updates rewrite the point's OWN stored text into a variant (a word dropped, doubled, replaced or case-changed) and queries are drawn from recently written texts, so that stale postings and stale term frequencies are hit."
+CFG['rule'] = CFG['rule'] + ' ' + 'One text in 25 writes one term 250..270 times (more than a byte counts) next to one other word.'
